@@ -180,7 +180,7 @@ def _r3(model, res, c, g):
                     items.append(Sym(None, 'E%d' % i))      # an argument value: anything at all
             pv = Obj(ClassV(None, ast.ClassDef(name='YaccProduction', bases=[], keywords=[], body=[], decorator_list=[])), {})
             lst = ListV(items)
-            pv.attrs['slice'] = ListV([Const(p.name)] + [Const(s) for s in p.syms])
+            pv.attrs['slice'] = ListV([SliceSym(p.name)] + [SliceSym(s) for s in p.syms])
             pv.attrs['<items>'] = lst
             interp.extern['hx:p.getitem'] = None
             gobj = Obj(ClassV(g.gm, g.gcls), {})
@@ -209,6 +209,10 @@ def _r3(model, res, c, g):
     res.floor('separator alternatives interpreted', n, 18)
 
 
+class SliceSym(Const):
+    """An element of ``p.slice``: str() of it and its ``.type`` are the grammar symbol name."""
+
+
 class PList(ListV):
     """The YaccProduction object: indexable like a list, with .slice (symbol names)."""
 
@@ -226,6 +230,8 @@ def _install_plist_support():
     def value_attr(interp, base, attr):
         if isinstance(base, PList) and attr == 'slice':
             return base.slice_
+        if isinstance(base, SliceSym) and attr == 'type':
+            return Const(base.value)
         return orig(interp, base, attr)
     absmodels.value_attr = value_attr
 
@@ -467,7 +473,7 @@ def _r7(model, res, c, g):
             res.violation('R7', '%s:%s:label-case' % key, m.where(f),
                           'a cell reference must be upper-cased before it is decomposed and reported (label=%r, row part from %r): '
                           'a1 and A1 would be different cells for a listener' % (label, rl), func=key[1])
-    res.floor('cell traces for case', n, 1)
+    res.soft_floor('cell traces for case', n, 1)
     outs, (m, f, key) = c10.run_callback(ctx, 'call_range_value', lambda interp: [Sym('str', 'S'), Sym('str', 'E')], listener_script=lambda: [])
     n = 0
     for o in outs:
